@@ -502,14 +502,42 @@ def check_C12(v, tier, rng):
         nr = rng.randint(2, 20)
         ops = ['E.new %s %s %d %d %d' % (codec, engine, K, R, sb), 'D.new %s %s %d %d %d' % (codec, engine, K, R, sb)]
         marks = []
+        expect = {}
         for r in range(nr):
             seed = rng.randint(1, 10 ** 6)
-            ops += enc_round(rng, K, sb, seed, probes='0,%d,%d' % (R - 1, R))
+            # "dropping the result forgets the added shards": straight after a drop (or construction) the object holds
+            # nothing, so encode/decode must refuse with counts of zero, and a half-supplied round with exactly its own counts
+            if rng.random() < 0.3:
+                expect[len(ops)] = 'err TooFewOriginalShards %d 0' % K
+                ops.append('E.encode -')
+            er = enc_round(rng, K, sb, seed, probes='0,%d,%d' % (R - 1, R))
+            if K > 1 and rng.random() < 0.2:
+                cut = rng.randint(1, K - 1)
+                ops += er[:cut]
+                expect[len(ops)] = 'err TooFewOriginalShards %d %d' % (K, cut)
+                ops.append('E.encode -')
+                ops += er[cut:]
+            else:
+                ops += er
             # the next E.add starts a new round: re-register references
             adds, os_, rs = dec_round_ops(rng, K, R, base=r * K)
-            ops += adds + ['D.decode 0,%d,%d' % (K - 1, K)]
+            if rng.random() < 0.3:
+                expect[len(ops)] = 'err NotEnoughShards %d 0 0' % K
+                ops.append('D.decode -')
+            if rng.random() < 0.3:
+                cut = rng.randint(1, K - 1) if K > 1 else 0
+                part = adds[:cut]
+                ops += part
+                expect[len(ops)] = 'err NotEnoughShards %d %d %d' % (K, sum(1 for a in part if a.startswith('D.addo')),
+                                                                     sum(1 for a in part if a.startswith('D.addr')))
+                ops.append('D.decode -')
+                ops += adds[cut:]
+            else:
+                ops += adds
+            ops.append('D.decode 0,%d,%d' % (K - 1, K))
             marks.append((len(ops) - 1, seed, sorted(os_)))
-        cases.append(Case('rr%d' % t, [o for o in ops if o], dict(kind='rounds', K=K, R=R, sb=sb, codec=codec, engine=engine, marks=marks, n=nr)))
+        cases.append(Case('rr%d' % t, ops, dict(kind='rounds', K=K, R=R, sb=sb, codec=codec, engine=engine, marks=marks, n=nr,
+                                                 expect={str(k): e for k, e in expect.items()})))
     w = [model_weight(c) for c in cases]
     impl = run_cases('impl', cases, 'C12', weights=w)
     implD = run_cases('impl', cases, 'C12d', profile='debug', weights=w)
@@ -541,7 +569,13 @@ def accessor_contract(c, res):
     K, R, sb = m['K'], m['R'], m['sb']
     if m.get('kind') == 'rounds':
         # references @oI in round r>0 point into the accumulated payload list: only check structure here
+        expect = m.get('expect', {})
         for k, r in enumerate(res):
+            if str(k) in expect:
+                if r != expect[str(k)]:
+                    return ('call %d `%s` returned %s where a blank/half-supplied round must give `%s` (a dropped result must forget every added shard)'
+                            % (k, c.ops[k][:60], r, expect[str(k)]), {'op_index': k})
+                continue
             if r is None or not r.startswith('ok'):
                 return ('call %d `%s` returned %s in a sequence of valid consecutive rounds (drop must start a new round)'
                         % (k, c.ops[k][:60], r), {'op_index': k})
